@@ -12,21 +12,24 @@ Definition nextline_frame (f : fclass) : bool := negb (user_frame f).
 Definition raw_ordinary (u : tb) : tb := Runner :: u.
 (** SyntaxError raised by compile() in compose.py: runner, pluggy frames, compose frames *)
 Definition raw_syntax (plug : tb) (comp : tb) : tb := Runner :: plug ++ Compose :: comp.
-(** KeyboardInterrupt raised while a trace function waits for a command: runner, the program's stack,
-    then WithContext's _local_trace and whatever it called *)
+(** KeyboardInterrupt raised while a trace function waits for a command at a line / return / exception event: runner,
+    the program's stack, then WithContext's _local_trace and whatever it called *)
 Definition raw_kbd (u : tb) (inner : tb) : tb := Runner :: u ++ WithContextM :: inner.
+(** ... at a CALL event: the interpreter calls the global trace function (global_.py), which reaches WithContext through
+    pluggy and local_.py *)
+Definition raw_kbd_call (u : tb) (mid inner : tb) : tb := Runner :: u ++ GlobalTraceM :: mid ++ WithContextM :: inner.
 
 Fixpoint tb_eqb (a b : tb) : bool :=
   match a, b with
   | [], [] => true
   | x :: r, y :: s => (match x, y with
                        | User, User | Runner, Runner | Compose, Compose | WithContextM, WithContextM
-                       | Plugin, Plugin | Lib, Lib => true | _, _ => false end) && tb_eqb r s
+                       | Plugin, Plugin | Lib, Lib | GlobalTraceM, GlobalTraceM => true | _, _ => false end) && tb_eqb r s
   | _, _ => false
   end.
 
 Definition fclass_of (n : nat) : fclass :=
-  match n with 0 => User | 1 => Runner | 2 => Compose | 3 => WithContextM | 4 => Plugin | _ => Lib end.
+  match n with 0 => User | 1 => Runner | 2 => Compose | 3 => WithContextM | 4 => Plugin | 6 => GlobalTraceM | _ => Lib end.
 Definition kind_of (n : nat) : exckind := match n with 0 => Ordinary | 1 => SyntaxErr | _ => KbdInterrupt end.
 
 (** correspondence: (exception kind, raw traceback, observed frame classes of fmt_exc) *)
